@@ -1754,4 +1754,306 @@ theorem argVal_error {a : Arg} {t : V} {e : PyExc} (h : argVal a t = .error e) :
     · cases h
     · injection h with h; exact h.symm
 
+
+/-! ### operands that are objects which exist already; programs -/
+
+/-- operator application is compositional: what `build` makes of an expression depends on its
+    sub-expressions only through what `build` makes of them — so an operand may be given as the
+    object itself (`.leaf obj`) or as the expression that built it -/
+theorem build_subst_congr (tbl : OpTable) (fl : Bool) (f g : Nat → OpExpr) (e : OpExprX)
+    (h : ∀ i ∈ e.uses, build tbl fl (f i) = build tbl fl (g i)) :
+    build tbl fl (e.subst f) = build tbl fl (e.subst g) := by
+  induction e with
+  | leaf s => rfl
+  | use i => exact h i (by simp [OpExprX.uses])
+  | band a b iha ihb =>
+    simp only [OpExprX.subst, build]
+    rw [iha (fun i hi => h i (by simp [OpExprX.uses, hi])),
+      ihb (fun i hi => h i (by simp [OpExprX.uses, hi]))]
+  | bor a b iha ihb =>
+    simp only [OpExprX.subst, build]
+    rw [iha (fun i hi => h i (by simp [OpExprX.uses, hi])),
+      ihb (fun i hi => h i (by simp [OpExprX.uses, hi]))]
+  | inv a iha =>
+    simp only [OpExprX.subst, build]
+    rw [iha (fun i hi => h i (by simp [OpExprX.uses, hi]))]
+
+theorem subst_leaves (f : Nat → OpExpr) (e : OpExprX) :
+    ∀ s ∈ (e.subst f).leaves, s ∈ e.leaves ∨ ∃ i ∈ e.uses, s ∈ (f i).leaves := by
+  induction e with
+  | leaf s0 => intro s hs; exact Or.inl hs
+  | use i => intro s hs; exact Or.inr ⟨i, by simp [OpExprX.uses], hs⟩
+  | band a b iha ihb =>
+    intro s hs
+    simp only [OpExprX.subst, OpExpr.leaves, List.mem_append] at hs
+    rcases hs with hs | hs
+    · rcases iha s hs with h | ⟨i, hi, h⟩
+      · exact Or.inl (by simp [OpExprX.leaves, h])
+      · exact Or.inr ⟨i, by simp [OpExprX.uses, hi], h⟩
+    · rcases ihb s hs with h | ⟨i, hi, h⟩
+      · exact Or.inl (by simp [OpExprX.leaves, h])
+      · exact Or.inr ⟨i, by simp [OpExprX.uses, hi], h⟩
+  | bor a b iha ihb =>
+    intro s hs
+    simp only [OpExprX.subst, OpExpr.leaves, List.mem_append] at hs
+    rcases hs with hs | hs
+    · rcases iha s hs with h | ⟨i, hi, h⟩
+      · exact Or.inl (by simp [OpExprX.leaves, h])
+      · exact Or.inr ⟨i, by simp [OpExprX.uses, hi], h⟩
+    · rcases ihb s hs with h | ⟨i, hi, h⟩
+      · exact Or.inl (by simp [OpExprX.leaves, h])
+      · exact Or.inr ⟨i, by simp [OpExprX.uses, hi], h⟩
+  | inv a iha =>
+    intro s hs
+    simp only [OpExprX.subst, OpExpr.leaves] at hs
+    rcases iha s hs with h | ⟨i, hi, h⟩
+    · exact Or.inl (by simp [OpExprX.leaves, h])
+    · exact Or.inr ⟨i, by simp [OpExprX.uses, hi], h⟩
+
+theorem ctorErrL_snoc {cs : List Spec} {b : Spec} (h1 : ctorErrL cs = none) (h2 : ctorErr b = none) :
+    ctorErrL (cs ++ [b]) = none := by
+  induction cs with
+  | nil => simp [ctorErrL, h2, Option.orElse]
+  | cons c cs ih =>
+    obtain ⟨hc, hcs⟩ := ctorErrL_cons h1
+    simp only [List.cons_append, ctorErrL, hc, ih hcs, Option.orElse]
+
+theorem ctorErr_pair_and {x y : Spec} (hx : ctorErr x = none) (hy : ctorErr y = none) :
+    ctorErr (.and [x, y] none) = none := by
+  simp [ctorErr, ctorErrL, hx, hy, Option.orElse]
+
+theorem ctorErr_pair_or {x y : Spec} (hx : ctorErr x = none) (hy : ctorErr y = none) :
+    ctorErr (.or [x, y] none) = none := by
+  simp [ctorErr, ctorErrL, hx, hy, Option.orElse]
+
+theorem ctorErr_snoc_and {cs : List Spec} {d : Option Arg} {y : Spec}
+    (hx : ctorErr (.and cs d) = none) (hy : ctorErr y = none) :
+    ctorErr (.and (cs ++ [y]) none) = none := by
+  obtain ⟨h1, _⟩ := ctorErr_and hx
+  simp [ctorErr, ctorErrL_snoc h1 hy, Option.orElse]
+
+theorem ctorErr_snoc_or {cs : List Spec} {d : Option Arg} {y : Spec}
+    (hx : ctorErr (.or cs d) = none) (hy : ctorErr y = none) :
+    ctorErr (.or (cs ++ [y]) none) = none := by
+  obtain ⟨h1, _⟩ := ctorErr_or hx
+  simp [ctorErr, ctorErrL_snoc h1 hy, Option.orElse]
+
+/-- an operator applied to constructible operands builds a constructible object -/
+theorem applyAnd_ctorOk (fl : Bool) {sa sb s : Spec} (ha : ctorErr sa = none) (hb : ctorErr sb = none)
+    (h : applyBin expectedBoolOps fl "__and__" "__rand__" sa sb = .ok s) : ctorErr s = none := by
+  unfold applyBin at h
+  simp only [findOp_eq, shapeOf_and, shapeOf_rand] at h
+  cases hca : opClass sa with
+  | and_ =>
+    obtain ⟨cs, d, rfl⟩ := opClass_and hca
+    rw [hca] at h
+    simp only [buildShape_andShape] at h
+    cases d with
+    | some dv =>
+      simp only [hasDefault, if_true] at h
+      injection h with h; subst h; exact ctorErr_pair_and ha hb
+    | none =>
+      simp only [hasDefault, Bool.false_eq_true, if_false, flatAnd, children?] at h
+      cases fl with
+      | true => simp only [if_true] at h; injection h with h; subst h; exact ctorErr_snoc_and ha hb
+      | false =>
+        simp only [Bool.false_eq_true, if_false] at h
+        injection h with h; subst h; exact ctorErr_pair_and ha hb
+  | or_ | not_ | mexpr | mtype =>
+    rw [hca] at h
+    simp only [buildShape_and] at h
+    injection h with h; subst h; exact ctorErr_pair_and ha hb
+  | msub | plain =>
+    rw [hca] at h
+    simp only at h
+    cases hcb : opClass sb <;> rw [hcb] at h <;> simp only [buildShape_and] at h <;>
+      first
+        | (injection h with h; subst h; exact ctorErr_pair_and hb ha)
+        | cases h
+
+theorem applyOr_ctorOk (fl : Bool) {sa sb s : Spec} (ha : ctorErr sa = none) (hb : ctorErr sb = none)
+    (h : applyBin expectedBoolOps fl "__or__" "__ror__" sa sb = .ok s) : ctorErr s = none := by
+  unfold applyBin at h
+  simp only [findOp_eq, shapeOf_or, shapeOf_ror] at h
+  cases hca : opClass sa with
+  | or_ =>
+    obtain ⟨cs, d, rfl⟩ := opClass_or hca
+    rw [hca] at h
+    simp only [buildShape_orShape] at h
+    cases d with
+    | some dv =>
+      simp only [hasDefault, if_true] at h
+      injection h with h; subst h; exact ctorErr_pair_or ha hb
+    | none =>
+      simp only [hasDefault, Bool.false_eq_true, if_false, flatOr, children?] at h
+      cases fl with
+      | true => simp only [if_true] at h; injection h with h; subst h; exact ctorErr_snoc_or ha hb
+      | false =>
+        simp only [Bool.false_eq_true, if_false] at h
+        injection h with h; subst h; exact ctorErr_pair_or ha hb
+  | and_ | not_ | mexpr | mtype =>
+    rw [hca] at h
+    simp only [buildShape_or] at h
+    injection h with h; subst h; exact ctorErr_pair_or ha hb
+  | msub | plain =>
+    rw [hca] at h
+    simp only at h
+    cases h
+
+theorem applyInv_ctorOk {sa s : Spec} (ha : ctorErr sa = none)
+    (h : applyInv expectedBoolOps sa = .ok s) : ctorErr s = none := by
+  unfold applyInv at h
+  simp only [findOp_eq, shapeOf_inv] at h
+  cases hca : opClass sa <;> rw [hca] at h <;> simp only [buildShape_not] at h <;>
+    first
+      | (injection h with h; subst h; simpa [ctorErr] using ha)
+      | cases h
+
+/-- what the operators build from constructible leaves can be constructed (in both readings) -/
+theorem build_ctorOk (fl : Bool) (e : OpExpr) (hl : ∀ s ∈ e.leaves, ctorErr s = none) :
+    ∀ s, build expectedBoolOps fl e = .ok s → ctorErr s = none := by
+  induction e with
+  | leaf s0 =>
+    intro s h
+    simp only [build] at h
+    injection h with h; subst h
+    exact hl _ (by simp [OpExpr.leaves])
+  | band a b iha ihb =>
+    intro s h
+    simp only [build] at h
+    cases h1 : build expectedBoolOps fl a with
+    | error x => rw [h1] at h; cases h
+    | ok sa =>
+      rw [h1] at h; simp only at h
+      cases h2 : build expectedBoolOps fl b with
+      | error x => rw [h2] at h; cases h
+      | ok sb =>
+        rw [h2] at h; simp only at h
+        exact applyAnd_ctorOk fl (iha (fun s hs => hl s (by simp [OpExpr.leaves, hs])) sa h1)
+          (ihb (fun s hs => hl s (by simp [OpExpr.leaves, hs])) sb h2) h
+  | bor a b iha ihb =>
+    intro s h
+    simp only [build] at h
+    cases h1 : build expectedBoolOps fl a with
+    | error x => rw [h1] at h; cases h
+    | ok sa =>
+      rw [h1] at h; simp only at h
+      cases h2 : build expectedBoolOps fl b with
+      | error x => rw [h2] at h; cases h
+      | ok sb =>
+        rw [h2] at h; simp only at h
+        exact applyOr_ctorOk fl (iha (fun s hs => hl s (by simp [OpExpr.leaves, hs])) sa h1)
+          (ihb (fun s hs => hl s (by simp [OpExpr.leaves, hs])) sb h2) h
+  | inv a iha =>
+    intro s h
+    simp only [build] at h
+    cases h1 : build expectedBoolOps fl a with
+    | error x => rw [h1] at h; cases h
+    | ok sa =>
+      rw [h1] at h; simp only at h
+      exact applyInv_ctorOk (iha (fun s hs => hl s (by simp [OpExpr.leaves, hs])) sa h1) h
+
+/-- the invariant of a program run: the i-th object of the heap is what the operators build
+    from the i-th (inlined) definition, whose leaves can all be constructed -/
+def HeapInv (objs : List Spec) (defs : List OpExpr) : Prop :=
+  objs.length = defs.length ∧
+  ∀ i, build expectedBoolOps true (defAt defs i) = .ok (objAt objs i) ∧
+    ∀ s ∈ (defAt defs i).leaves, ctorErr s = none
+
+theorem HeapInv.nil : HeapInv [] [] := by
+  refine ⟨rfl, fun i => ⟨?_, ?_⟩⟩
+  · simp [defAt, objAt, build]
+  · intro s hs
+    simp only [defAt, List.getD_nil, OpExpr.leaves, List.mem_singleton] at hs
+    subst hs; rfl
+
+theorem HeapInv.snoc {objs : List Spec} {defs : List OpExpr} (h : HeapInv objs defs)
+    {s : Spec} {e : OpExpr} (hb : build expectedBoolOps true e = .ok s)
+    (hl : ∀ x ∈ e.leaves, ctorErr x = none) : HeapInv (objs ++ [s]) (defs ++ [e]) := by
+  obtain ⟨hlen, hi⟩ := h
+  refine ⟨by simp [hlen], fun i => ?_⟩
+  by_cases hlt : i < defs.length
+  · have h1 : defAt (defs ++ [e]) i = defAt defs i := by
+      simp [defAt, List.getD_eq_getElem?_getD, List.getElem?_append_left hlt]
+    have h2 : objAt (objs ++ [s]) i = objAt objs i := by
+      simp [objAt, List.getD_eq_getElem?_getD, List.getElem?_append_left (hlen ▸ hlt)]
+    rw [h1, h2]; exact hi i
+  · by_cases heq : i = defs.length
+    · have h1 : defAt (defs ++ [e]) i = e := by
+        subst heq; simp [defAt, List.getD_eq_getElem?_getD]
+      have h2 : objAt (objs ++ [s]) i = s := by
+        subst heq; simp [objAt, List.getD_eq_getElem?_getD, ← hlen]
+      rw [h1, h2]; exact ⟨hb, hl⟩
+    · have hgt : defs.length + 1 ≤ i := by omega
+      have h1 : defAt (defs ++ [e]) i = .leaf .mtype := by
+        simp [defAt, List.getD_eq_getElem?_getD, List.getElem?_eq_none (l := defs ++ [e]) (by simpa using hgt)]
+      have h2 : objAt (objs ++ [s]) i = .mtype := by
+        simp [objAt, List.getD_eq_getElem?_getD,
+          List.getElem?_eq_none (l := objs ++ [s]) (by simpa [hlen] using hgt)]
+      rw [h1, h2]
+      refine ⟨rfl, ?_⟩
+      intro x hx
+      simp only [OpExpr.leaves, List.mem_singleton] at hx
+      subst hx; rfl
+
+/-- binding on the heap = building the inlined definition -/
+theorem bindObj_eq {objs : List Spec} {defs : List OpExpr} (h : HeapInv objs defs) (e : OpExprX) :
+    bindObj expectedBoolOps objs e = build expectedBoolOps true (e.subst (defAt defs)) := by
+  unfold bindObj
+  apply build_subst_congr
+  intro i _
+  rw [(h.2 i).1]; rfl
+
+theorem inlined_leaves {objs : List Spec} {defs : List OpExpr} (h : HeapInv objs defs) (e : OpExprX)
+    (hl : ∀ s ∈ e.leaves, ctorErr s = none) :
+    ∀ s ∈ (e.subst (defAt defs)).leaves, ctorErr s = none := by
+  intro s hs
+  rcases subst_leaves _ e s hs with h1 | ⟨i, _, h1⟩
+  · exact hl s h1
+  · exact (h.2 i).2 s h1
+
+
+/-- a program run on the model satisfies the program checker, from any heap that satisfies the
+    invariant -/
+theorem prog_checks {env : Env} (hw : WFacts env) :
+    ∀ (steps : List Step) (objs : List Spec) (defs : List OpExpr), HeapInv objs defs →
+      (∀ e, Step.bind e ∈ steps → ∀ s ∈ e.leaves, ctorErr s = none) →
+      checkProg env.cls steps defs (runProg env steps objs) = true := by
+  intro steps
+  induction steps with
+  | nil => intro objs defs _ _; simp [runProg, checkProg]
+  | cons st rest ih =>
+    intro objs defs hinv hl
+    have hl' : ∀ e, Step.bind e ∈ rest → ∀ s ∈ e.leaves, ctorErr s = none :=
+      fun e he => hl e (by simp [he])
+    cases st with
+    | bind e =>
+      have hle := inlined_leaves hinv e (hl e (by simp))
+      have hrel := build_rel _ hle
+      unfold BuildRel at hrel
+      simp only [runProg, hw.ops_ok, bindObj_eq hinv e]
+      cases h1 : build expectedBoolOps true (e.subst (defAt defs)) <;>
+        cases h2 : build expectedBoolOps false (e.subst (defAt defs)) <;>
+        rw [h1, h2] at hrel <;> simp only at hrel
+      · subst hrel
+        simp [checkProg, bindErr, h2]
+      · have c1 := build_ctorOk true _ hle _ h1
+        have c2 := build_ctorOk false _ hle _ h2
+        simp only [c1, checkProg, bindErr, h2, c2, Option.map_none]
+        exact ih _ _ (hinv.snoc h1 hle) hl'
+    | eval i t =>
+      simp only [runProg, checkProg, Bool.and_eq_true]
+      refine ⟨?_, ih objs defs hinv hl'⟩
+      obtain ⟨hb, hle⟩ := hinv.2 i
+      have hrel := build_rel (defAt defs i) hle
+      rw [hb] at hrel
+      unfold BuildRel at hrel
+      unfold checkOps
+      cases h2 : build expectedBoolOps false (defAt defs i) <;> rw [h2] at hrel <;> simp only at hrel
+      simp only
+      rw [hrel.1.eval_eq env t]
+      unfold checkC10
+      rw [build_ctorOk false _ hle _ h2]
+      exact rel_obsSat (eval_rel hw _ t (build_ctorOk false _ hle _ h2))
+
 end Glom.C10
